@@ -335,7 +335,7 @@ func (m *Machine) ensureInit(pkg *ssa.Package) {
 			defer func() {
 				if r := recover(); r != nil {
 					m.depth = d
-					if ps, ok := r.(*pathStop); ok && ps.kind == "inconclusive" {
+					if ps, ok := r.(*pathStop); ok && ps.kind == "inconclusive" && !strings.Contains(ps.msg, "time limit") {
 						m.initAborted = append(m.initAborted, path+": "+ps.msg)
 						return
 					}
